@@ -50,7 +50,7 @@ func (k Keeper) PrepareCoinsToDistribute(sources []*types.Account, ctx sdk.Conte
 	for _, source := range sources {
 		var coinsToDistribute sdk.DecCoins
 		if source.Type == types.Main {
-			coinsToDistribute = k.prepareCoinToDistributeForMainAccount(ctx, states, subDistributorName)
+			coinsToDistribute = k.prepareCoinToDistributeForMainAccount(ctx, states, allCoinsToDistribute, subDistributorName)
 		} else {
 			coinsToDistribute = k.prepareCoinToDistributeForNotMainAccount(ctx, *source, states, subDistributorName)
 		}
@@ -63,11 +63,12 @@ func (k Keeper) PrepareCoinsToDistribute(sources []*types.Account, ctx sdk.Conte
 	return allCoinsToDistribute
 }
 
-func (k Keeper) prepareCoinToDistributeForMainAccount(ctx sdk.Context, states []types.State, subDistributorName string) sdk.DecCoins {
+func (k Keeper) prepareCoinToDistributeForMainAccount(ctx sdk.Context, states []types.State, alreadyCollected sdk.DecCoins, subDistributorName string) sdk.DecCoins {
 	coinsToDistribute := sdk.NewDecCoinsFromCoins(k.GetAccountCoinsForModuleAccount(ctx, types.DistributorMainAccount)...)
 	if len(coinsToDistribute) > 0 {
 		sum := getRamainsSum(&states)
-		coinsToDistribute = coinsToDistribute.Sub(sum)
+		// coins collected from the other sources of this sub-distributor already sit in the main account
+		coinsToDistribute = coinsToDistribute.Sub(sum).Sub(alreadyCollected)
 	}
 	k.Logger(ctx).Debug("prepare coins to distribute for main account", "subDistr", subDistributorName, "coins", coinsToDistribute.String())
 
